@@ -529,6 +529,12 @@ func (s *sx) doCall(f *frame, x *ssa.Call) SV {
 		recv := s.eval(f, com.Value)
 		switch com.Method.Name() {
 		case "Write":
+			if lb := localBuffer(recv); lb != nil && len(args) == 1 {
+				// an io.Writer that is a local bytes.Buffer: the bytes are collected, not yet output
+				lb.v = s.appendBytes(bufOfCell(lb), s.lenOf(args[0]), "bytes", args[0])
+				lb.set = true
+				return SV{K: kTuple, Tup: []SV{svInt(s.lenOf(args[0])), {K: kErr, Nil: true}}}
+			}
 			if len(args) == 1 {
 				s.emitBytes(args[0], pos)
 				s.note("errors returned by the output's Write are assumed nil (success path)")
@@ -582,8 +588,36 @@ func (s *sx) doCall(f *frame, x *ssa.Call) SV {
 	case "encoding/binary.littleEndian.AppendUint32":
 		return s.appendBytes(args[1], linC(4), "u32", args[2])
 	case "*bytes.Buffer.Write":
+		if lb := localBuffer(args[0]); lb != nil {
+			lb.v = s.appendBytes(bufOfCell(lb), s.lenOf(args[1]), "bytes", args[1])
+			lb.set = true
+			return SV{K: kTuple, Tup: []SV{svInt(s.lenOf(args[1])), {K: kErr, Nil: true}}}
+		}
 		s.emitBytes(args[1], pos)
 		return SV{K: kTuple, Tup: []SV{svInt(s.lenOf(args[1])), {K: kErr, Nil: true}}}
+	case "*bytes.Buffer.WriteByte":
+		if lb := localBuffer(args[0]); lb != nil {
+			lb.v = s.appendBytes(bufOfCell(lb), linC(1), "byte", args[1])
+			lb.set = true
+			return SV{K: kErr, Nil: true}
+		}
+		s.emit(linC(1), "byte", args[1], pos)
+		return SV{K: kErr, Nil: true}
+	case "*bytes.Buffer.Bytes":
+		if lb := localBuffer(args[0]); lb != nil {
+			return bufOfCell(lb)
+		}
+	case "*bytes.Buffer.Len":
+		if lb := localBuffer(args[0]); lb != nil {
+			return svInt(s.lenOf(bufOfCell(lb)))
+		}
+	case "*bytes.Buffer.Grow", "*bytes.Buffer.Reset":
+		if lb := localBuffer(args[0]); lb != nil {
+			if callee.Name() == "Reset" {
+				lb.v = SV{K: kBytes, Nil: true}
+			}
+			return SV{}
+		}
 	case "fmt.Errorf", "errors.New":
 		return SV{K: kErr}
 	}
@@ -648,6 +682,7 @@ func (s *sx) appendBytes(dst SV, n Lin, kind string, val SV) SV {
 		return r
 	}
 	off := dst.Buf.length
+	s.touch(dst.Buf)
 	dst.Buf.events = append(dst.Buf.events, bufEvent{off: off, n: n, kind: kind, val: val})
 	dst.Buf.length = off.add(n)
 	r := dst
@@ -888,4 +923,22 @@ func describeAssume(a map[string]bool, order []string) string {
 		return "no assumption"
 	}
 	return strings.Join(parts, ", ")
+}
+
+// localBuffer: v points to a local variable of type bytes.Buffer.
+func localBuffer(v SV) *cell {
+	if v.K != kCell || v.Cell == nil || v.Cell.typ == nil {
+		return nil
+	}
+	if n, ok := v.Cell.typ.(*types.Named); ok && n.Obj().Pkg() != nil && n.Obj().Pkg().Path() == "bytes" && n.Obj().Name() == "Buffer" {
+		return v.Cell
+	}
+	return nil
+}
+
+func bufOfCell(c *cell) SV {
+	if c.set && c.v.K == kBytes {
+		return c.v
+	}
+	return SV{K: kBytes, Nil: true}
 }
